@@ -6,6 +6,7 @@
      plugin/output/kafka          out (records = slices of one shared buffer)
      plugin/output/splunk         out (no copy_fields)
      plugin/output/gelf           out (framing only; formatEvent's rewrite of the event is the [ev_alt] oracle)
+     plugin/output/loki           out / send (the envelope; its pieces are encoding/json oracle values)
    plus an executable RFC 8259 recogniser (the byte automaton of encoding/json's scanner).
    No proofs here (Proofs/Payload.v). *)
 From Verif Require Import Base.Sx Base.GoSem.
@@ -441,6 +442,56 @@ Definition kafka_out (c : k_cfg) (batch : list ev) (prev : bytes) (script : list
   Ok (mkAtt reqs (negb (is_ok_status st)) (if is_ok_status st then 0 else 1) data script').
 
 (* ==========================================================================================
+   7b. Loki: one JSON envelope per batch (plugin/output/loki out / send)
+   ========================================================================================== *)
+(* The envelope is built with encoding/json, so the pieces are oracle values carried by the event
+   (the harness fills them from insane-json + encoding/json and checks them with json.Valid):
+     ev_raw = [ts; msg]  the JSON string literals json.Marshal writes for
+                         Dig(timestamp_field).AsString() and Dig(message_field).AsString();
+                         ts = [] when that value is empty: the plugin stamps time.Now(), which the
+                         harness canonicalises to "@now"
+     ev_topic            non-empty when isUnixNanoFormat rejects the timestamp value
+     ev_alt              the event without those two fields as json.Marshal(json.RawMessage(..)) writes it
+   The specification side is the same function: every attempt (also a repeated one) carries the
+   entries of the ORIGINAL events. *)
+Definition LOKI_PRE : bytes := [123; 34; 115; 116; 114; 101; 97; 109; 115; 34; 58; 91; 123; 34; 115; 116; 114; 101; 97; 109; 34; 58]%N.   (* {"streams":[{"stream": *)
+Definition LOKI_MID : bytes := [44; 34; 118; 97; 108; 117; 101; 115; 34; 58; 91]%N.   (* ,"values":[ *)
+Definition LOKI_SUF : bytes := [93; 125; 93; 125]%N.   (* ]}]} *)
+Definition LOKI_NOW : bytes := [34; 64; 110; 111; 119; 34]%N.   (* "@now" *)
+
+Definition loki_ts (e : ev) : bytes :=
+  let t := oracle_at (ev_raw e) 0 in if is_nil t then LOKI_NOW else t.
+(* one element of "values": [ts, line, rest of the event] *)
+Definition loki_entry (e : ev) : bytes :=
+  [91]%N ++ loki_ts e ++ [44]%N ++ oracle_at (ev_raw e) 1 ++ [44]%N ++ alt_or_empty e ++ [93]%N.
+Definition loki_bad (e : ev) : bool := negb (is_nil (ev_topic e)).
+
+Fixpoint loki_join (es : list ev) (first : bool) (acc : buf) : buf :=
+  match es with
+  | [] => acc
+  | e :: r => loki_join r false (bapp (if first then acc else bpush acc 44%N) (loki_entry e))
+  end.
+
+Definition loki_body (labels : bytes) (ds : list ev) : bytes :=
+  bbytes (bapp (loki_join ds true (bapp (bapp (bapp (mkBuf [] 0) LOKI_PRE) labels) LOKI_MID)) LOKI_SUF).
+
+(* the scripted answers: Loki acknowledges with 204 *)
+Definition next_status_loki (script : list Z) : Z * list Z :=
+  match script with [] => (204, []) | s :: r => (s, r) end.
+
+(* out(): no request at all when a timestamp is rejected (errUnixNanoFormat: the batch is dropped
+   after logging, like a 400); a batch without deliverable events never reaches out() (Batcher.work) *)
+Definition loki_out (labels : bytes) (batch : list ev) (prev : bytes) (script : list Z) : res attempt :=
+  let ds := deliverable batch in
+  if is_nil ds then Ok (mkAtt [] false 0 prev script)
+  else if existsb loki_bad ds then Ok (mkAtt [] true 0 prev script)
+  else
+    let body := loki_body labels ds in
+    let '(st, script') := next_status_loki script in
+    let ok := Z.eqb st 204 in
+    Ok (mkAtt [mkReq 0 (len ds) body st] (negb ok) (if ok || Z.eqb st 400 then 0 else 1) prev script').
+
+(* ==========================================================================================
    8. successive batches through one worker (buffer reuse) with retries
    ========================================================================================== *)
 Definition out_fn := list ev -> bytes -> list Z -> res attempt.
@@ -502,7 +553,9 @@ Definition sx_flat (a : res attempt) : sx :=
   | Panic _ => SL [SZ 2]
   end.
 
-(* which: 0 es | 1 file | 2 http | 3 kafka | 4 splunk | 5 gelf;  case = (cfg (batch ...) (status ...)) *)
+(* which: 0 es | 1 file | 2 http | 3 kafka | 4 splunk | 5 gelf | 6 loki;  case = (cfg (batch ...) (status ...))
+   (c19_entry reduces which modulo 16: the harness numbers its buffer-size / transport variants of a sink
+   16*v + sink; the model is value-level, so every variant has the same model) *)
 Definition out_of_case (which : Z) (cfg : sx) : option out_fn :=
   match which, cfg with
   | 0, SL [SB op; SB fmt; vals; SB time; split] =>
@@ -520,6 +573,7 @@ Definition out_of_case (which : Z) (cfg : sx) : option out_fn :=
       match as_bool usef with Some u => Some (kafka_out (mkK dflt u bs)) | None => None end
   | 4, SL [] => Some splunk_out
   | 5, SL [] => Some gelf_out
+  | 6, SL [SB labels] => Some (loki_out labels)
   | _, _ => None
   end.
 
@@ -574,7 +628,48 @@ Definition strip_frame (pre suf : bytes) (l : bytes) : option bytes :=
   if has_prefix l pre && has_suffix l suf && (len pre + len suf <=? len l)
   then Some (firstn (length l - length pre - length suf) (skipn (length pre) l)) else None.
 
-Definition docs_of_body (which : Z) (body : bytes) : option (list bytes) :=
+(* linear-time removal of a prefix and a suffix *)
+Definition strip_frame_fast (pre suf : bytes) (l : bytes) : option bytes :=
+  if has_prefix l pre then
+    let r := rev_fast (skipn (length pre) l) in
+    let rs := rev_fast suf in
+    if has_prefix r rs then Some (rev_fast (skipn (length rs) r)) else None
+  else None.
+
+(* cut a comma-separated row of JSON documents (arrays / objects / strings) *)
+Fixpoint split_entries (s : jstate) (rcur : bytes) (l : bytes) : option (list bytes) :=
+  match l with
+  | [] => if is_nil rcur then Some [] else None
+  | c :: r =>
+      match jstep s c with
+      | None => None
+      | Some (JEnd, []) =>
+          let d := rev_fast (c :: rcur) in
+          match r with
+          | [] => Some [d]
+          | c2 :: r2 =>
+              if N.eqb c2 44 && negb (is_nil r2) then
+                match split_entries (JVal, []) [] r2 with
+                | Some ds => Some (d :: ds)
+                | None => None
+                end
+              else None
+          end
+      | Some s' => split_entries s' (c :: rcur) r
+      end
+  end.
+
+(* loki: the body is one valid JSON document, the envelope around the configured labels, and its
+   "values" are cut into their elements *)
+Definition loki_docs (labels : bytes) (body : bytes) : option (list bytes) :=
+  if json_valid body then
+    match strip_frame_fast (LOKI_PRE ++ labels ++ LOKI_MID) LOKI_SUF body with
+    | Some row => split_entries (JVal, []) [] row
+    | None => None
+    end
+  else None.
+
+Definition docs_of_body (which : Z) (cfg : sx) (body : bytes) : option (list bytes) :=
   match which with
   | 0 =>
       let '(ls, t) := lines_tail body in
@@ -587,10 +682,14 @@ Definition docs_of_body (which : Z) (body : bytes) : option (list bytes) :=
   | 3 => Some [body]
   | 4 =>
       match split_docs (JVal, []) [] body with
-      | Some ds => opt_map (strip_frame SPLUNK_PRE [125]%N) ds
+      | Some ds => opt_map (strip_frame_fast SPLUNK_PRE [125]%N) ds   (* = strip_frame, in linear time *)
       | None => None
       end
-  | 5 => let '(ls, t) := split_tail 0%N body in if is_nil t then Some ls else None
+  | 5 =>
+      (* every NUL-terminated chunk is one JSON document *)
+      let '(ls, t) := split_tail 0%N body in
+      if is_nil t && forallb json_valid ls then Some ls else None
+  | 6 => match cfg with SL [SB labels] => loki_docs labels body | _ => None end
   | _ => None
   end.
 
@@ -598,18 +697,20 @@ Definition expected_docs (which : Z) (cfg : sx) (batch : list ev) : list bytes :
   match which, cfg with
   | 2, SL [SZ 1; _] => map alt_or_empty (deliverable batch)
   | 5, _ => map alt_or_empty (deliverable batch)
+  | 6, _ => map loki_entry (deliverable batch)
   | _, _ => map enc (deliverable batch)
   end.
 
 Definition carries (which st : Z) : bool :=
   if Z.eqb which 3 then negb (Z.eqb st (-1))
-  else if Z.eqb which 1 then true else is_ok_status st.
+  else if Z.eqb which 1 then true
+  else if Z.eqb which 6 then Z.eqb st 204 else is_ok_status st.
 
-Fixpoint carried_docs (which : Z) (reqs : list sx) : option (list bytes) :=
+Fixpoint carried_docs (which : Z) (cfg : sx) (reqs : list sx) : option (list bytes) :=
   match reqs with
   | [] => Some []
   | SL [SB body; SZ st] :: r =>
-      match docs_of_body which body, carried_docs which r with
+      match docs_of_body which cfg body, carried_docs which cfg r with
       | Some d, Some ds => Some (if carries which st then d ++ ds else ds)
       | _, _ => None
       end
@@ -622,7 +723,7 @@ Definition complete (which : Z) (m : res attempt) : bool :=
 Definition att_pred (which : Z) (cfg : sx) (batch : list ev) (m : res attempt) (o : sx) : bool :=
   match o with
   | SL [SZ 0; SL reqs; SZ _] =>
-      match carried_docs which reqs with
+      match carried_docs which cfg reqs with
       | Some ds =>
           let want := expected_docs which cfg batch in
           is_subseq ds want && (if complete which m then list_bytes_eqb ds want else true)
@@ -672,5 +773,5 @@ Definition c19_entry (which : Z) (case obs : sx) : verdict :=
   | 7 => match foreach_model case with Some m => exact_verdict m obs | None => BadCase end
   | 8 => match case with SB s => exact_verdict (of_bool (str_body_ok s)) obs | _ => BadCase end
   | 9 => match case with SB s => exact_verdict (of_bool (json_valid s)) obs | _ => BadCase end
-  | _ => c19_sink_run which case obs
+  | _ => c19_sink_run (which mod 16) case obs
   end.
